@@ -210,6 +210,37 @@ namespace c16
         }
         if(flat) { const DT g1 = ta.assemble_discrete_integral(oneh, space, cub); VF_CHECK(fabsl((LD)g1 - meas) <= tol_of<DT>(kap, meas + 1), "trace integral of 1 = " << (double)g1 << " but the measure of the selected facets is " << (double)meas); }
       }
+      // ---------------------------------------------------------------- jump operators on inner facets (draw appended behind all others)
+      // continuous spaces: every basis function has the same trace from both sides of an inner facet, so the jump operator
+      // sum_E int_E [phi][psi] vanishes entry by entry whatever orientation the two cells see the facet in; a polynomial of the
+      // space has a continuous gradient, so the jump-stabilisation operator sum_E (s J_E)^p int_E [grad phi].[grad psi] annihilates
+      // its coefficient vector (rows), and the operator is symmetric
+      if constexpr(Tag::tensor)
+      {
+        if(t.flag(1, 3) && mesh->get_num_elements() >= 2)
+        {
+          c.label("jump:inner-facets"); c.desc.set("jump_ops", true); c.op = "trace:jump"; c.announce();
+          Assembly::TraceAssembler<TrafoType> tj(trafo); tj.compile_all_facets(true, false);
+          MatrixType J; Assembly::SymbolicAssembler::assemble_matrix_ext_facet1(J, space); J.format();
+          tj.assemble_jump_operator_matrix(J, space, cub, alpha);
+          LD vol = 0; for(auto& x : mesh_qps(rm, 0)) vol += x.w; const LD hs = (LD)std::pow((double)vol / (double)mesh->get_num_elements(), 1.0 / dim);
+          const LD fm = (LD)mesh->get_num_entities(fd) * std::pow((double)hs, dim - 1) * kap;      // scale of the total facet measure
+          { LD mx = 0; Index wi = 0, wj = 0; for(Index i = 0; i < J.rows(); ++i) for(auto k = J.row_ptr()[i]; k < J.row_ptr()[i + 1]; ++k) if(fabsl((LD)J.val()[k]) > mx) { mx = fabsl((LD)J.val()[k]); wi = i; wj = J.col_ind()[k]; }
+            VF_CHECK(std::isfinite((double)mx) && mx <= 1e-10L * fabsl((LD)alpha) * (fm + 1), "jump operator of a continuous space on the inner facets: entry (" << wi << "," << wj << ") = " << (double)mx << " but every inner jump [phi] vanishes"); }
+          if(Tag::has_grad && (rm.cells_affine || Tag::nonaffine_ok) && rm.cells_affine)
+          {
+            MatrixType S; Assembly::SymbolicAssembler::assemble_matrix_ext_facet1(S, space); S.format();
+            tj.assemble_jump_stabil_operator_matrix(S, space, cub, DT(1), DT(2), DT(2));
+            VectorType ph; { PolyFunction<dim> pf(P[0]); Assembly::Interpolator::project(ph, pf, space); }
+            VectorType r(space.get_num_dofs(), DT(0)); S.apply(r, ph);
+            LD smax = 0; for(Index k = 0; k < S.used_elements(); ++k) smax = std::max(smax, fabsl((LD)S.val()[k])); LD pmx = 0; for(Index i = 0; i < ph.size(); ++i) pmx = std::max(pmx, fabsl((LD)ph(i)));
+            Index rl = 0; for(Index i = 0; i < S.rows(); ++i) rl = std::max<Index>(rl, Index(S.row_ptr()[i + 1] - S.row_ptr()[i]));
+            for(Index i = 0; i < r.size(); ++i) VF_CHECK(fabsl((LD)r(i)) <= tol_of<DT>(kap, smax * pmx * (LD)(rl + 1)), "jump stabilisation operator applied to a polynomial of the space: row " << i << " gives " << (double)r(i) << " (the gradient of the polynomial is continuous)");
+            for(Index i = 0; i < S.rows(); ++i) for(auto k = S.row_ptr()[i]; k < S.row_ptr()[i + 1]; ++k) { const Index j = S.col_ind()[k]; LD sji = 0; for(auto q2 = S.row_ptr()[j]; q2 < S.row_ptr()[j + 1]; ++q2) if(S.col_ind()[q2] == i) sji = (LD)S.val()[q2];
+              VF_CHECK(fabsl((LD)S.val()[k] - sji) <= tol_of<DT>(kap, smax), "jump stabilisation operator is not symmetric: S(" << i << "," << j << ") = " << (double)S.val()[k] << ", S(" << j << "," << i << ") = " << (double)sji); }
+          }
+        }
+      }
     }
     static std::uint32_t hash2(std::uint32_t a, std::uint32_t b) { std::uint64_t x = (std::uint64_t(a) << 32 | b) * 0x9e3779b97f4a7c15ull; x ^= x >> 29; x *= 0xbf58476d1ce4e5b9ull; x ^= x >> 32; return (std::uint32_t)x; }
     int m_cap() const { return (rm.simplex && dim == 3) ? 19 : 19; }   // facet rules: Gauss (1D / quad facets) or Dunavant (triangle facets)
